@@ -14,7 +14,9 @@ git apply --check -R "$PATCH" 2>/dev/null || git apply "$PATCH" || { echo "canno
 suite=fail
 for try in 1 2 3; do
   if go test -vet=off -count=1 ./... > /tmp/suite_$SID.log 2>&1; then suite=pass; break; fi
-  grep -q "address already in use" /tmp/suite_$SID.log || break
+  # the suite has load-dependent flakes of its own (fixed port 5140 in ./test, timing in TestAgent / TestReloader /
+  # TestNetConnWrapper, also on the untouched tree): retry when only those packages failed
+  if grep "^FAIL" /tmp/suite_$SID.log | grep -v "slog-agent/test\|slog-agent/run\|slog-agent/util\s\|^FAIL$" | grep -q .; then break; fi
   sleep 5
 done
 echo "suite with change: $suite"
